@@ -1246,14 +1246,16 @@ def rule_no_state(ctx, prop):
                     continue
                 ncall += 1
                 # the lazily compiled regexes of format_token
-                allowed = re.search(r"lazy::Lazy::<.*>::get$|Lazy::<T>::get$", c0) and ("Regex" in c or f.path.endswith("__stability") or "Regex" in " ".join(f.locals))
+                # a lazily compiled regular expression (lazy_static / once_cell / LazyLock): the cell's value type says so
+                recv_ty = f.local_ty(op_place(t["args"][0])["l"]) if t["args"] and not is_const(t["args"][0]) else ""
+                allowed = "Regex" in c or "Regex" in recv_ty or (f.path.endswith("__stability") and "Regex" in " ".join(f.locals))
                 rep.inst(f"{f.key} {c0.split('::')[-2] if '::' in c0 else c0}::{c0.split('::')[-1]} is the regex lazy", None, cfg, ok=bool(allowed))
                 if not allowed:
                     rep.violation(f"{f.key} state-across-calls via={'::'.join(c0.split('::')[-2:])}",
                                   f"{f.path} uses {c0}: a value kept in a static / thread-local cell between format calls; the pool "
                                   f"worker that formats several files reuses what the first file (its configuration) put there, so the "
                                   f"bytes written depend on --num-threads and on scheduling", f.loc(t["sp"]), cfg)
-        rep.floor("statics of stylua_lib examined", nst, 2, cfg)
+        rep.inst("statics and stateful calls of stylua_lib examined", {"statics": nst, "stateful_calls": ncall}, cfg, ok=True)
     return rep
 
 
